@@ -4,29 +4,36 @@ import RulioProofs.BreakerFixed
 
 /-! # C20 — configured limits are enforced and recover (property theorems only)
 
-Models: `RulioModel/Breaker.lean` (`OB` = the `counts`/`updated` state of `OutboundBreaker`, `DoSys` = concurrent
-callers of `Do`, `Thr` = `Throttle.Submit` bookkeeping, `Cap` = the capacity gate of `Location`), built on the
-definitions that `harness/cmd/extract_c20` regenerates from `core/breaker.go` and `core/location.go` into
-`RulioModel/Gen/C20.lean`.  Time is nanoseconds on a monotone clock. -/
+Models: `RulioModel/Breaker.lean` (`OB` = the `counts`/`updated` state of `OutboundBreaker`, `BEv` = a `Do` call or a
+`Status()`/`Summary()` poll, `DoSys` = concurrent callers of `Do`, `Thr` = `Throttle.Submit` bookkeeping, `Cap` = the
+capacity gate of `Location`), built on the definitions that `harness/cmd/extract_c20` regenerates from
+`core/breaker.go` and `core/location.go` into `RulioModel/Gen/C20.lean`.  Time is nanoseconds on a monotone clock.
+
+The breaker theorems are about the repaired `slide`/`Do`/`init`/`Submit` (corpus/C20-fix-*.patch): `slide` advances
+`updated` by the whole ticks it shifted (to `now` only when everything has aged out), an admission sets
+`updated := now`, `init` rejects intervals below `breakerTicks` ns, `Submit` increments `pending` only for the
+submissions that will decrement it.  On a tree without these repairs the extracted definitions differ and the
+recovery / interval / pending theorems below do not compile. -/
 
 open Gen.C20
 
 /-! ## OutboundBreaker: the rate bound -/
 
 /-- **Window bound on the real data structure.**  For a breaker whose counts are all zero (fresh, or after `Reset`),
-any limit, interval (at least `ticks` ns) and any non-decreasing sequence of call times, every window
-`[a, a + ticks·⌊interval/ticks⌋)` contains at most `limit` admitted calls.  Proved by a simulation between the
-`counts` array (copy/zero/`counts[0]++` as in `slide`/`Do`) and the ghost model of `BreakerGhost.lean`. -/
+any limit, interval (at least `ticks` ns) and any non-decreasing sequence of `Do` calls and `Status`/`Summary` polls,
+every window `[a, a + ticks·⌊interval/ticks⌋)` contains at most `limit` admitted calls.  Proved by a simulation between
+the `counts` array (copy/zero/`counts[0]++`, the assignments of `updated` in `slide` and `Do`) and the ghost model of
+`BreakerGhost.lean`. -/
 theorem breaker_window_counts (b : OB) (hz : b.counts = List.replicate b.ticks 0) (ht : 0 < b.ticks) (hr : 0 < b.res)
-    (ts : List Nat) (hmono : (b.updated :: ts).Pairwise (· ≤ ·)) (a : Nat) :
-    ((b.admitted ts).filter (fun t => a ≤ t ∧ t < a + b.ticks * b.res)).length ≤ b.limit :=
-  window_counts b hz ht hr ts hmono a
+    (es : List BEv) (hmono : (b.updated :: es.map BEv.time).Pairwise (· ≤ ·)) (a : Nat) :
+    ((b.admittedEv es).filter (fun t => a ≤ t ∧ t < a + b.ticks * b.res)).length ≤ b.limit :=
+  window_counts b hz ht hr es hmono a
 
 /-- the same for `NewOutboundBreaker(limit, interval)` when `interval` is a multiple of `breakerTicks` nanoseconds
 (every realistic interval): *any sliding window of the interval* holds at most `limit` admissions. -/
 theorem breaker_window_interval (limit interval : Nat) (hi : 0 < interval) (hd : breakerTicks ∣ interval)
-    (ts : List Nat) (hmono : ts.Pairwise (· ≤ ·)) (a : Nat) :
-    (((OB.init limit interval).admitted ts).filter (fun t => a ≤ t ∧ t < a + interval)).length ≤ limit := by
+    (es : List BEv) (hmono : (es.map BEv.time).Pairwise (· ≤ ·)) (a : Nat) :
+    (((OB.init limit interval).admittedEv es).filter (fun t => a ≤ t ∧ t < a + interval)).length ≤ limit := by
   obtain ⟨hz, hlen, hticks, hres, hlim, hupd⟩ := init_fields limit interval
   obtain ⟨q, rfl⟩ := hd
   have hq : 0 < q := by
@@ -34,23 +41,24 @@ theorem breaker_window_interval (limit interval : Nat) (hi : 0 < interval) (hd :
     · simp at hi
     · exact h
   have hr : (OB.init limit (breakerTicks * q)).res = q := by rw [hres]; simp [breakerTicks]
-  have := window_counts (OB.init limit (breakerTicks * q)) (by rw [hlen] at hz; rw [hticks]; exact hz)
-    (by rw [hticks]; decide) (by rw [hr]; exact hq) ts
-    (by rw [hupd]; exact List.pairwise_cons.mpr ⟨fun _ _ => Nat.zero_le _, hmono⟩) a
+  have := window_counts (OB.init limit (breakerTicks * q)) hz
+    (by rw [hticks]; decide) (by rw [hr]; exact hq) es
+    (by rw [hupd]; exact pairwise_zero_cons _ hmono) a
   rw [hticks, hr, hlim] at this
   exact this
 
 /-- **Under any concurrency.**  Any number of threads, each making any number of `Do` calls, under any schedule:
-because `Do` holds the breaker's mutex from the clock reading to the increment (`do_segments_shape`, a fact
-regenerated from the source), the execution is a sequential run of `call` at the clock readings taken under the
-lock, and the admitted calls obey the window bound.  (Clock readings along a schedule are non-decreasing.) -/
+because `Do` holds the breaker's mutex from the clock reading to the increment and the assignment of `updated`
+(`do_segments_shape`, a fact regenerated from the source), the execution is a sequential run of `call` at the clock
+readings taken under the lock, and the admitted calls obey the window bound.  (Clock readings along a schedule are
+non-decreasing.) -/
 theorem breaker_window_concurrent (b : OB) (hz : b.counts = List.replicate b.ticks 0) (ht : 0 < b.ticks) (hr : 0 < b.res)
     (calls : List Nat) (sch : List (Nat × Nat)) (hmono : (b.updated :: sch.map (·.2)).Pairwise (· ≤ ·)) (a : Nat) :
     ((((DoSys.start b calls).exec sch).admitted).filter (fun t => a ≤ t ∧ t < a + b.ticks * b.res)).length ≤ b.limit := by
   obtain ⟨ts, hsub, _, hadm⟩ := exec_sequential (DoSys.start b calls) (start_ok b calls) sch
   rw [hadm]
   have hm : (b.updated :: ts).Pairwise (· ≤ ·) := hmono.sublist (List.Sublist.cons_cons _ hsub)
-  exact window_counts b hz ht hr ts hm a
+  exact window_counts b hz ht hr (ts.map .call) (by rw [map_call_time]; exact hm) a
 
 /-- the reduction itself: every schedule of every set of threads equals a sequential run over a subsequence of the
 scheduled clock readings -/
@@ -61,85 +69,86 @@ theorem breaker_concurrent_is_sequential (b : OB) (calls : List Nat) (sch : List
 
 /-! ## OutboundBreaker: recovery
 
-The full clause — *a call is admitted as soon as fewer than `limit` earlier admissions lie within the last window,
-even while the breaker is being polled* — is FALSE for the code as it stands: `slide` sets `updated := now` on
-every call but shifts only whole ticks, so the remainder of every gap is lost. -/
+`slide` keeps the part of a tick that it did not shift (`updated` advances by whole ticks), so polling — by refused
+`Do` calls or by `Status()`/`Summary()` — cannot postpone the shifts any more; only an admission re-anchors the clock
+(`updated := now`), which is what makes the rate bound exact. -/
 
-/-- **Negative (confirmed on the real code).**  A fresh breaker polled with every gap shorter than one tick
-(`interval/20`) admits exactly the first `limit` calls and then nothing, no matter how long the polling goes on. -/
-theorem breaker_fast_poll_never_recovers (limit interval t0 δ : Nat) (hδ : δ < interval / breakerTicks) (n : Nat) :
-    ((OB.init limit interval).admitted (t0 :: pollEvery t0 δ n)).length = min (n + 1) limit := by
-  have := fast_poll_general limit interval t0 (pollEvery t0 δ n) (pollEvery_fast _ t0 δ n hδ)
-  rw [pollEvery_length] at this
-  exact this
+/-- **Recovery, for every polling pattern.**  For any breaker with all-zero counts and a positive limit, any
+non-decreasing sequence `pre` of `Do` calls and `Status`/`Summary` polls (any number, any spacing: faster or slower
+than a tick, bursts, pauses), a call at `now` is admitted when every admission so far is at least one window
+(`ticks·res`) old.  (Induction over the list of arrivals.) -/
+theorem breaker_recovers (b : OB) (hz : b.counts = List.replicate b.ticks 0) (ht : 0 < b.ticks) (hr : 0 < b.res)
+    (hl : 0 < b.limit) (pre : List BEv) (now : Nat)
+    (hmono : (b.updated :: (pre.map BEv.time ++ [now])).Pairwise (· ≤ ·))
+    (hidle : ∀ t ∈ b.admittedEv pre, t + b.ticks * b.res ≤ now) :
+    ((b.afterEv pre).call now).2 = true :=
+  recovers_counts b hz ht hr hl pre now hmono hidle
 
-/-- the same for arbitrary (not only uniform) arrival times whose gaps are all shorter than a tick -/
-theorem breaker_fast_poll_general (limit interval t0 : Nat) (rest : List Nat)
-    (hf : FastPolled (interval / breakerTicks) t0 rest) :
-    ((OB.init limit interval).admitted (t0 :: rest)).length = min (rest.length + 1) limit :=
-  fast_poll_general limit interval t0 rest hf
+/-- **Recovery bound** for `NewOutboundBreaker(limit, interval)` with any accepted interval (multiple of 20 ns or
+not): a caller that was refused is admitted by its first call at or after `interval` past the last admission (the one
+that filled the window) — so a caller polling every `δ` waits less than `interval + δ`, in particular less than
+`interval + resolution` when it polls at least once per tick — whatever else polled the breaker in between. -/
+theorem breaker_recovery_bound (limit interval : Nat) (hl : 0 < limit) (hi : breakerTicks ≤ interval)
+    (pre : List BEv) (now : Nat) (hmono : (pre.map BEv.time ++ [now]).Pairwise (· ≤ ·))
+    (hlast : ∀ t ∈ (OB.init limit interval).admittedEv pre, t + interval ≤ now) :
+    (((OB.init limit interval).afterEv pre).call now).2 = true :=
+  recovers_init limit interval hl hi pre now hmono hlast
 
-set_option maxRecDepth 20000 in
-/-- **Negative witness, slow polling.**  limit 1 per 200 ns (tick = 10 ns) polled every 19 ns: each gap shifts one
-tick and loses 9 ns, so of the 20 calls at 0, 19, …, 361 only the first is admitted, although from t = 209 on no
-admission lies within the last 200 ns.  (The call at 380 is admitted: the delay is 1.9 windows.) -/
-theorem breaker_slow_poll_recovery_delayed :
-    (OB.init 1 200).admitted ((List.range 20).map (· * 19)) = [0] ∧
-    (OB.init 1 200).admitted ((List.range 21).map (· * 19)) = [380, 0] := by
+/-- **Graded recovery** (what holds when the window is only partly aged out).  A call is admitted when fewer than
+`limit` earlier admissions are younger than their graded window: one window for the newest admission, plus
+`res - 1` ns for every admission made after it (each of those re-anchored the clock and lost less than a tick).
+`gradedCount W s now 0 l` counts the `t_j` of `l` (newest first, `j = 0, 1, …`) with `now < t_j + W + j·s`. -/
+theorem breaker_recovers_graded (b : OB) (hz : b.counts = List.replicate b.ticks 0) (ht : 0 < b.ticks) (hr : 0 < b.res)
+    (pre : List BEv) (now : Nat)
+    (hmono : (b.updated :: (pre.map BEv.time ++ [now])).Pairwise (· ≤ ·))
+    (hfew : gradedCount (b.ticks * b.res) (b.res - 1) now 0 (b.admittedEv pre) < b.limit) :
+    ((b.afterEv pre).call now).2 = true :=
+  recovers_graded_counts b hz ht hr pre now hmono hfew
+
+set_option maxRecDepth 40000 in
+/-- the arrival patterns that defeated the unrepaired `slide` (limit 1 per 200 ns, tick = 10 ns): polled every 3 ns
+(faster than a tick) the breaker admits again at 201, the first poll at or after 200; polled every 19 ns (slower than
+a tick, formerly 1.9 windows late) at 209; and `Status` polls in between do not delay the call at 200. -/
+theorem breaker_polled_recovers_witnesses :
+    (OB.init 1 200).admitted (0 :: pollEvery 0 3 80) = [201, 0] ∧
+    (OB.init 1 200).admitted ((List.range 21).map (· * 19)) = [209, 0] ∧
+    (OB.init 1 200).admittedEv [.call 0, .status 3, .status 7, .call 150, .status 199, .call 200, .call 201] = [200, 0] := by
   decide
 
-/-- **What does hold** (partial: the clause asks for one window, the code guarantees two).  If every gap is zero
-(a burst) or at least one tick, then a call at `now` is admitted whenever fewer than `limit` earlier admissions are
-younger than *two* windows. -/
-theorem breaker_recovers_if_polled_slower_than_tick_partial (b : OB) (hz : b.counts = List.replicate b.ticks 0)
-    (ht : 0 < b.ticks) (hr : 0 < b.res) (pre : List Nat) (now : Nat)
-    (hs : SlowPolled b.res b.updated (pre ++ [now]))
-    (hfew : ((b.admitted pre).filter (fun t => now < t + 2 * (b.ticks * b.res))).length < b.limit) :
-    ((b.after pre).call now).2 = true :=
-  recovers_slow b hz ht hr pre now hs hfew
-
-/-- **Negative.**  An interval shorter than `breakerTicks` nanoseconds makes `resolution` zero and every `Do`
-divide by zero (a run-time panic in Go; `NewOutboundBreaker` accepts such intervals). -/
-theorem breaker_tiny_interval_div_zero (limit interval now : Nat) (h : interval < breakerTicks) :
-    (OB.init limit interval).callE now = .error .divByZero := by
-  have : (OB.init limit interval).res = 0 := by
-    simp only [OB.init, OB.res, resolution, initTicks]
-    exact Nat.div_eq_of_lt h
-  simp [OB.callE, this]
+/-- **Limit of a bucketed window (design trade-off, not a defect of the repair).**  The rate bound is exact, so the
+aging of an older admission is delayed by the admissions made after it: limit 2 per 200 ns, admissions at 0 and 9 —
+the call at 200 is refused although only the admission at 9 is younger than 200 ns; it is admitted at 209
+(`breaker_recovers_graded` is the general bound, `breaker_recovers` the case where everything has aged out). -/
+theorem breaker_exact_recovery_tradeoff_witness : (OB.init 2 200).admitted [0, 9, 200, 209] = [209, 9, 0] := by
+  decide
 
 /-- **Negative witness, rounding.**  When `interval` is not a multiple of 20 ns the window that is enforced is
 `20·⌊interval/20⌋`, up to 19 ns shorter than the interval: limit 1 per 39 ns admits calls 20 ns apart. -/
 theorem breaker_window_rounding_witness : (OB.init 1 39).admitted [100, 120] = [120, 100] := by
   decide
 
-/-! ### the proposed repair (`OB.slideFixed`: `updated` advances by whole ticks) — NOT the current code
+/-! ## OutboundBreaker: the interval -/
 
-These two theorems are kept compiled so that the `fix:` patch of the recovery defect can be adopted with its proofs
-ready (then `OB.slide` becomes `OB.slideFixed` and they replace `breaker_window_counts` and the `_partial` theorem). -/
+/-- **`NewOutboundBreaker` / `Adjust` reject an interval below `breakerTicks` nanoseconds** (zero and negative
+durations included), for every limit, before they write any field of the breaker. -/
+theorem new_breaker_rejects_tiny_interval (limit interval : Int) (h : interval < breakerTicks) :
+    OB.initE limit interval = none := by
+  simp [OB.initE, initRejects, h]
 
-/-- repaired breaker, recovery at full strength: for every non-decreasing arrival sequence (any polling rate), a call
-is admitted whenever fewer than `limit` earlier admissions are younger than one window `ticks·res`. -/
-theorem fixed_breaker_recovers (b : OB) (hz : b.counts = List.replicate b.ticks 0) (ht : 0 < b.ticks) (hr : 0 < b.res)
-    (pre : List Nat) (now : Nat) (hmono : (b.updated :: (pre ++ [now])).Pairwise (· ≤ ·))
-    (hfew : ((b.admittedFixed pre).filter (fun t => now < t + b.ticks * b.res)).length < b.limit) :
-    ((b.afterFixed pre).callFixed now).2 = true :=
-  fixed_recovers_counts b hz ht hr pre now hmono hfew
+/-- why: with such an interval `resolution` would be zero and every `Do` would divide by zero -/
+theorem breaker_tiny_interval_would_divide_by_zero (limit interval now : Nat) (h : interval < breakerTicks) :
+    (OB.init limit interval).callE now = .error .divByZero := by
+  have : (OB.init limit interval).res = 0 := by
+    simp only [OB.init, OB.res, resolution, initTicks]
+    exact Nat.div_eq_of_lt h
+  simp [OB.callE, this]
 
-/-- repaired breaker, rate bound: every window of `(ticks-1)·res` (19/20 of the interval) holds at most `limit`
-admissions.  (One tick less than today: a bucketed window cannot be exact on both sides; see the witness below.) -/
-theorem fixed_breaker_window (b : OB) (hz : b.counts = List.replicate b.ticks 0) (ht : 0 < b.ticks) (hr : 0 < b.res)
-    (ts : List Nat) (hmono : (b.updated :: ts).Pairwise (· ≤ ·)) (a : Nat) :
-    ((b.admittedFixed ts).filter (fun t => a ≤ t ∧ t < a + (b.ticks - 1) * b.res)).length ≤ b.limit :=
-  fixed_window_counts b hz ht hr ts hmono a
-
-set_option maxRecDepth 40000 in
-/-- the repaired breaker on the two witnesses of the defect (it recovers at 201 resp. 209 ns), and the price: two
-admissions 191 ns apart with a 200 ns interval -/
-theorem fixed_breaker_witnesses :
-    (OB.init 1 200).admittedFixed (0 :: pollEvery 0 3 80) = [201, 0] ∧
-    (OB.init 1 200).admittedFixed ((List.range 21).map (· * 19)) = [209, 0] ∧
-    (OB.init 1 200).admittedFixed [9, 200] = [200, 9] := by
-  decide
+/-- **A breaker that was accepted never panics**: after any calls and polls `Do` neither divides by zero nor indexes
+`counts` out of range (its limit is positive, its resolution at least 1 ns). -/
+theorem breaker_accepted_never_panics (limit interval : Int) (b : OB) (h : OB.initE limit interval = some b)
+    (pre : List BEv) (now : Nat) :
+    (b.afterEv pre).callE now = .ok ((b.afterEv pre).call now) ∧ 0 < b.limit ∧ 0 < b.res :=
+  ⟨accepted_never_panics limit interval b h pre now, (init_res_pos limit interval b h).2.2.1, (init_res_pos limit interval b h).1⟩
 
 /-! ## Throttle -/
 
@@ -153,18 +162,26 @@ theorem throttle_pending_bound (pendingLimit : Nat) (disabled : Bool) (n : Nat) 
     rw [exec_pendingLimit] at this
     exact this
 
-/-- as long as the throttle is never disabled, `pending` is exactly the number of waiting submitters (so it returns
-to zero when all have returned) -/
-theorem throttle_pending_exact (pendingLimit n : Nat) (evs : List Thr.Ev) (h : ∀ e ∈ evs, e ≠ .setDisabled true) :
-    ((Thr.start pendingLimit false n).exec evs).pending = ((Thr.start pendingLimit false n).exec evs).waiting :=
-  (exec_exact _ evs ⟨by simp [Thr.start, Thr.waiting, List.count_replicate], rfl⟩ h).eq
+/-- `pending` is exactly the number of waiting submitters at every moment, for every interleaving of submitters and of
+`Disable(true)` / `Disable(false)` calls -/
+theorem throttle_pending_exact (pendingLimit : Nat) (disabled : Bool) (n : Nat) (evs : List Thr.Ev) :
+    ((Thr.start pendingLimit disabled n).exec evs).pending = ((Thr.start pendingLimit disabled n).exec evs).waiting :=
+  (exec_inv _ evs (start_inv pendingLimit disabled n)).eq
 
-/-- **Negative witness (replayed on the real code).**  With `Disable(true)`, an overflowing `Submit` increments
-`pending` and returns `ThrottleOverflow` without decrementing: with `pendingLimit = 0`, after one overlapping pair
-of submissions nobody waits, `pending` is stuck at 1, and every later `Submit` overflows even after `Disable(false)`. -/
-theorem throttle_disabled_leak_witness :
+/-- **`pending` returns to zero.**  Whenever every `Submit` that was entered has returned (no submitter is between
+the increment and the decrement), `pending = 0` — also after overflowing submissions and across `Disable` toggles; so
+a throttle can never get stuck refusing with `ThrottleOverflow`. -/
+theorem throttle_pending_returns_to_zero (pendingLimit : Nat) (disabled : Bool) (n : Nat) (evs : List Thr.Ev)
+    (hret : ∀ pc ∈ ((Thr.start pendingLimit disabled n).exec evs).pcs, pc ≠ .waiting) :
+    ((Thr.start pendingLimit disabled n).exec evs).pending = 0 := by
+  rw [throttle_pending_exact]
+  exact List.count_eq_zero.mpr (fun hmem => hret _ hmem rfl)
+
+/-- the schedule that used to leak (`pendingLimit = 0`, `Disable(true)`, one overlapping pair of submissions, then
+`Disable(false)` and a third submitter): the overflowing `Submit` leaves `pending` alone and the late submitter is served -/
+theorem throttle_former_leak_schedule :
     let t := (Thr.start 0 true 2).exec [.sub 0, .sub 1, .sub 0, .setDisabled false, .spawn, .sub 2]
-    t.waiting = 0 ∧ t.pending = 1 ∧ t.pcs = [.done, .overflow, .overflow] := by
+    t.waiting = 1 ∧ t.pending = 1 ∧ t.pcs = [.done, .overflow, .waiting] := by
   decide
 
 /-- **At most once.**  With breakers whose `Do` reports `attempted` exactly when it ran the function, one `Submit`
@@ -228,13 +245,23 @@ theorem capacity_race_witness :
 /-! ## the hypotheses are satisfiable by non-trivial instances -/
 
 example : (OB.init 3 1000000000).counts = List.replicate (OB.init 3 1000000000).ticks 0 ∧ 0 < (OB.init 3 1000000000).ticks
-    ∧ 0 < (OB.init 3 1000000000).res := by decide
+    ∧ 0 < (OB.init 3 1000000000).res ∧ 0 < (OB.init 3 1000000000).limit := by decide
 example : (OB.init 2 200).admitted [5, 6, 7, 100, 205, 215, 216] = [216, 215, 6, 5] := by decide
-example : SlowPolled 10 0 [0, 0, 10, 35, 35, 300] := by simp [SlowPolled]
-example : FastPolled 10 0 [3, 9, 18, 18] := by simp [FastPolled]
+-- `breaker_recovers`: polls faster than a tick, the last admission (at 6) is 200 old at 206
+example : ((OB.init 2 200).updated :: (([.call 5, .call 6, .call 7, .status 9, .call 100, .status 203] : List BEv).map BEv.time ++ [206])).Pairwise (· ≤ ·)
+    ∧ (∀ t ∈ (OB.init 2 200).admittedEv [.call 5, .call 6, .call 7, .status 9, .call 100, .status 203], t + (OB.init 2 200).ticks * (OB.init 2 200).res ≤ 206)
+    ∧ (OB.init 2 200).admittedEv [.call 5, .call 6, .call 7, .status 9, .call 100, .status 203] = [6, 5] := by decide
+-- `breaker_recovers_graded` with a non-empty window: one of the two slots is free again at 214 = 5 + 200 + 1·9
+example : gradedCount 200 9 214 0 ((OB.init 2 200).admittedEv [.call 5, .call 50, .call 60]) = 1 ∧
+    (((OB.init 2 200).afterEv [.call 5, .call 50, .call 60]).call 214).2 = true := by decide
+example : OB.initE 3 20 = some (OB.init 3 20) ∧ OB.initE 3 19 = none ∧ OB.initE 3 0 = none ∧ OB.initE 3 (-7) = none
+    ∧ OB.initE 0 1000 = none := by decide
 example : ((DoSys.start (OB.init 1 200) [2, 1]).exec [(0, 5), (1, 6), (0, 7), (0, 250), (1, 251)]).admitted = [250, 5] := by
   decide
 example : (submitLoop 3 [.outbound false, .outbound true, .outbound true]) = (1, true) := by decide
 example : ((Thr.start 1 false 4).exec [.sub 0, .sub 1, .sub 2, .sub 3, .sub 0]).waiting = 1 := by decide
+-- `throttle_pending_returns_to_zero`: overflow while disabled, toggles, everybody returned
+example : let t := (Thr.start 0 true 3).exec [.sub 0, .sub 1, .setDisabled false, .sub 2, .sub 0, .setDisabled true, .spawn, .sub 3, .sub 3]
+    (∀ pc ∈ t.pcs, pc ≠ .waiting) ∧ t.pcs = [.done, .overflow, .overflow, .done] ∧ t.pending = 0 := by decide
 example : (({ maxFacts := 2, store := [] } : Cap).exec [.addFact "a" "1", .addFact "b" "2", .addFact "c" "3", .rem "a",
     .addRule "r" "x"]).store = [("b", "2"), ("r", "x")] := by decide
